@@ -112,6 +112,11 @@ def run_group(gname, s, tier="quick", seed=0, canary=False):
         combos = {}
         for _ in range(60):
             env = G.sample_group(rng, "g")
+            # path combinations are taken from GENERIC elements only: at a rotation angle of exactly pi (q_w == 0, over-sampled by
+            # sample_group) q and -q are both canonical and, in single precision, cos(pi_f / 2) < 0 makes exp return -q: the same
+            # rotation (the property asks the round trip near pi only up to 1e-7 / 1e-2), but not a coefficientwise identity
+            if any(env["g%d" % i] == 0.0 or abs(env["g%d" % i]) == 1.0 for grp in G.unit for i in grp):
+                continue
             pl = pick_path(fl.paths(hyp=hyp_g), env)
             if pl is None or pl.cls not in ("closed", "plain"):
                 continue
